@@ -343,6 +343,28 @@ func (m *c08Mon) mon(c *ctx, w *hWorld, _ *worldSnap, sr *stepResult, hist []str
 			fail("copy-differs-from-creation", fmt.Sprintf("after %s the copy of %x at account %x carries metadata %s that no creation / AddURI / UpdateAttributes produced", cs.Fn, entSuffix(k), k[:strings.IndexByte(k, 0)], metaStr(ne.TokenMetaData)))
 		}
 	}
+	// ... and no entry LOSES its metadata while staying in storage (the loop above only sees entries that still carry metadata)
+	var pkeys []string
+	for k := range preE {
+		if postE[k] == nil {
+			pkeys = append(pkeys, k)
+		}
+	}
+	sort.Strings(pkeys)
+	for _, k := range pkeys {
+		i := strings.IndexByte(k, 0)
+		acc, ok := post[k[:i]]
+		if !ok {
+			continue
+		}
+		raw, still := acc.storage[k[i+1:]]
+		if !still || len(raw) == 0 {
+			continue // the entry left the account (transferred out, burnt, wiped): other monitors judge that
+		}
+		if t, err := decodeToken(raw); err == nil && t.TokenMetaData == nil {
+			fail("metadata-erased", fmt.Sprintf("%s left the entry %x of account %x in storage (value %v) but WITHOUT its metadata; before: %s", cs.Fn, entSuffix(k), k[:i], t.Value, metaStr(preE[k].TokenMetaData)))
+		}
+	}
 	c.count("C08/frame-checked-calls")
 }
 
